@@ -1,186 +1,336 @@
-"""C03 secular matrix (structural clauses)."""
+"""C03 secular matrix: derivation skeleton by abstract evaluation."""
 from __future__ import annotations
 
-import ast
-
-from ..abseval import Interp, Rec
-from ..model import AnalysisError, U, Defs, calls_in, call_name, walk_fn, kwarg, enclosing
-from ..pathcond import conditions
-from . import common, deriv
-from . import c04
+from ..model import AnalysisError
+from ..symex import Obj
+from ..terms import (T, sym, kwcall, mcall, t_mul, t_add, t_neg, expand_products, product_key, multiset, show, strip,
+                     subterms, args_of, is_num)
+from . import dx
 
 EXPLANATION = (
-    "D1/D2 on secular_matrix.py and on the intermediate-state construction it is built from "
-    "(order linearity; <bra| H |ket> order; operator rules passed to wicks). D3: MVP prefactors "
-    "1/sqrt(n_o! n_v!) for the result space and for the summed ket space block[1] whose generic "
-    "indices are summed; lower-space projector and intermediate-state sums in "
-    "intermediate_states.py. D5: SecularMatrix.hamiltonian dispatch (0 -> h0, 1 -> h1, else zero "
-    "operator with empty rules; shift by E(order) of the same order). R03a: MVP assembly (matrix "
-    "block on (result, summed) indices, right amplitude vector on the summed indices, both "
-    "square-root factors, delta evaluation, block selection by bra space and order). R03b: "
-    "ADC(n) truncation tables max_ptorder_spaces/block_order evaluated for n <= 6 and the five "
-    "variants against order(mu,nu) = n - (mu-1) - (nu-1). R04a/R04b/R04c/R02c: index chaining of "
-    "S^(-1/2), lower-space generator, projector structure and Taylor coefficients of the "
-    "intermediate states and norm factors every block is built from.")
+    "All functions of secular_matrix.py are evaluated abstractly (sa.symex) for concrete orders/blocks with wicks, the "
+    "intermediate states, norm factors, operators and energies left uninterpreted; the rules compare the resulting "
+    "derivation skeleton with the ISR formulas. D5: hamiltonian(n, shift) = (H_n - [shift] E_n, rules of H_n) with "
+    "H_0, H_1 from the Operators instance and 0 with empty rules beyond. R03a: M^(n)_{IJ} = sum_{a+m=n} N^(a) "
+    "sum_{i+j+k=m} wicks(<I^(i)| H^(j) |J^(k)>, rules of H^(j)) for isr_matrix_block and precursor_matrix_block "
+    "(orders 0..3, diagonal and coupling blocks), including the paths on which a norm factor or operator vanishes "
+    "(exactly the products containing it disappear); D1 (orders add up, every split once) and D2 (<bra|op|ket> order, "
+    "bra from block[0]/indices[0], ket from block[1]/indices[1]) are read off the same skeleton. D3/R03a: "
+    "mvp_block_order = p(space) p(block[1]) M_{I,J} Y_J with both 1/sqrt(n_o! n_v!) factors, the summed indices "
+    "generated for block[1], right amplitude vector, refusal of a foreign bra space; mvp and expectation_value sum "
+    "exactly the blocks/orders of the ADC(n) truncation table; expectation_value_block_order contracts with the left "
+    "vector on indices generated for block[0]. R03b: max_ptorder_spaces/block_order evaluated for n <= 6 and the five "
+    "variants against order(mu,nu) = n - (mu-1) - (nu-1). The intermediate-state and ground-state layers the matrix is "
+    "built from are checked by the C04/C02 rules, which are run here as well.")
 ASSUMPTIONS = [
     "equality with <I|H-E0|J> over explicitly built states is not decided",
-    "R03b is evaluated for adc orders 0..6 only (bounded, not exhaustive)",
+    "skeletons are evaluated for orders 0..3 (R03b: adc orders 0..6) and the listed blocks only (bounded)",
+    "wicks, intermediate_state, precursor, norm_factor, energy, the operators and amplitude_vector are uninterpreted here",
 ]
 
-SM = "secular_matrix:SecularMatrix."
+SM = dx.SM
 
 
-def d3(ctx):
-    rule = "D3"
-    prefs = deriv.d3_space_sites(ctx, rule, SM + "mvp_block_order", 1)
-    spaces = sorted(sp for sp, _ in prefs)
-    fn = ctx.model.fn(SM + "mvp_block_order")
-    ctx.check(rule, fn, spaces == ["block[1]", "space"], "two square-root factors: result space and summed ket space",
-              f"MVP prefactors are computed for spaces {spaces}", key="mvp prefactor spaces")
-    kinds = sorted(k for _, k, _ in deriv._lifting_prefactors(fn, Defs(fn)))
-    ctx.check(rule, fn, kinds == ["sqrt", "sqrt"], "amplitude-vector sums use 1/sqrt(n_o! n_v!)",
-              f"MVP prefactor kinds are {kinds}", key="mvp prefactor kind")
-    # lower layers the matrix is built from
-    c04.d3(ctx)
+def _self(scen):
+    h, gs, isr = scen.objects()
+    return Obj(SM, "self", gs=gs, isr=isr, h=h, indices=Obj("indices:Indices", "self.indices"))
 
 
-def r03a(ctx):
+def _H(order, sg):
+    return mcall(sym("self"), "hamiltonian", order=order, subtract_gs=sg)
+
+
+def d5(ctx):
+    rule = "D5"
+    fn = ctx.model.fn(SM + ".hamiltonian")
+    scen = dx.Scenario()
+    sx = dx.make_sx(ctx, "hamiltonian", scen)
+    h = sym("h")
+    for order in (0, 1, 2, 3):
+        for sg in (True, False):
+            outs = sx.run(fn, lambda: dict(self=_self(scen), order=order, subtract_gs=sg))
+            rets = [o for o in outs if o.kind == "return"]
+            if len(outs) != 1 or len(rets) != 1 or not isinstance(rets[0].value, tuple) or len(rets[0].value) != 2:
+                ctx.bad(rule, fn, f"hamiltonian({order}, {sg}) does not return one (operator, rules) pair: {outs}",
+                        key=f"shape {order} {sg}")
+                continue
+            op, rules = rets[0].value
+            part = {0: T("attr", h, "h0"), 1: T("attr", h, "h1")}.get(order)
+            want_op = T("item", part, 0) if part is not None else 0
+            want_rules = T("item", part, 1) if part is not None else None
+            if sg:
+                want_op = t_add(want_op, t_neg(mcall(sym("gs"), "energy", order=order)))
+            ok = dx.keys(expand_products(op)) == dx.keys(expand_products(want_op))
+            ctx.check(rule, fn, ok, f"H^({order}){' - E^(%d)' % order if sg else ''}",
+                      f"hamiltonian({order}, subtract_gs={sg}) returns the operator {show(op)}, expected {show(want_op)}",
+                      key=f"operator {order} {sg}")
+            if want_rules is not None:
+                okr = rules == want_rules
+            else:
+                okr = isinstance(rules, T) and rules.op == "call" and rules.args[0] == "Rules" and \
+                    all(v is None for v in args_of(rules).values())
+            ctx.check(rule, fn, okr, f"rules of H^({order})",
+                      f"hamiltonian({order}, subtract_gs={sg}) returns the rules {show(rules)}", key=f"rules {order} {sg}")
+
+
+def _block_formula(state, order, block, indices, sg):
+    """Expected products of a matrix block: dict product_key -> (count, factors it depends on)."""
+    (B, K), (bi, ki) = block, indices
+    prods = []
+    for a, m in dx.compositions(order, 2):
+        nf = mcall(sym("gs"), "norm_factor", order=a)
+        for i, j, k in dx.compositions(m, 3):
+            H = _H(j, sg)
+            bra = mcall(sym("isr"), state, order=i, space=B, braket="bra", indices=bi)
+            ket = mcall(sym("isr"), state, order=k, space=K, braket="ket", indices=ki)
+            w = kwcall("wicks", expr=t_mul(bra, T("item", H, 0), ket), rules=T("item", H, 1), simplify_kronecker_deltas=True)
+            prods.append((nf, T("item", H, 0), t_mul(nf, w)))
+    return prods
+
+
+def r03a_blocks(ctx):
     rule = "R03a"
-    fn = ctx.model.fn(SM + "mvp_block_order")
-    defs = Defs(fn)
-    ret = common.returns_of(fn)[-1]
-    v = ret.value
-    ok = isinstance(v, ast.Call) and call_name(v) == "evaluate_deltas"
-    inner = v.args[0] if ok else v
-    if isinstance(inner, ast.Call) and call_name(inner) == "expand":
-        inner = inner.func.value
-    fs = sorted(U(f) for f in deriv.flatten_mult(inner))
-    ctx.check(rule, ret, ok and fs == ["m", "prefactor_ampl", "prefactor_mvp", "y"],
-              "r = p_r * p_Y * M * Y with deltas evaluated", f"MVP returns `{U(v)[:90]}`", key="mvp product")
-    m = [a for a in common.assigns_to(fn, "m")]
-    ok = len(m) == 1 and call_name(m[0].value) == "isr_matrix_block" and U(kwarg(m[0].value, "order", 0)) == "order" \
-        and U(kwarg(m[0].value, "block", 1)) == "block" and U(kwarg(m[0].value, "indices", 2)) == "(indices, idx)" \
-        and U(kwarg(m[0].value, "subtract_gs", 3)) == "subtract_gs"
-    ctx.check(rule, fn, ok, "matrix block M_{I,J} on (result indices, summed indices)", "matrix block arguments changed",
-              key="mvp matrix args")
-    y = [a for a in common.assigns_to(fn, "y")]
-    ok = len(y) == 1 and call_name(y[0].value) == "amplitude_vector" and U(kwarg(y[0].value, "indices", 0)) == "idx" \
-        and U(kwarg(y[0].value, "lr", 1)) == "'right'"
-    ctx.check(rule, fn, ok, "right amplitude vector on the summed (ket) indices", "amplitude vector arguments changed", key="mvp vector")
-    g = [a for a in common.assigns_to(fn, "idx")]
-    ok = len(g) == 1 and "generic_indices_from_space(block[1])" in U(g[0].value)
-    ctx.check(rule, fn, ok, "summed indices generated for the ket space block[1]", "summed indices are not generated from block[1]",
-              key="mvp ket indices")
-    r = [n for n in walk_fn(fn) if isinstance(n, ast.Raise) and ("space == block[0]", False) in conditions(n)]
-    ctx.check(rule, fn, bool(r), "result space must equal the bra space", "space/bra-space consistency check removed", key="mvp space guard")
-    # mvp: block selection
-    mv = ctx.model.fn(SM + "mvp")
-    conts = [n for n in walk_fn(mv) if isinstance(n, ast.Continue)]
-    ok = len(conts) == 1 and U(conts[0]._parent.test) == "space != block[0] or (order is not None and max_order < order)"
-    ctx.check(rule, mv, ok, "blocks skipped iff other bra space or not expanded through the order",
-              f"block selection is `{U(conts[0]._parent.test) if conts else None}`", key="mvp selection")
-    calls = [c for c in calls_in(mv) if call_name(c) == "mvp_block_order"]
-    ctx.floor(rule, "mvp_block_order calls in mvp", len(calls), 2)
-    for c in calls:
-        cs = conditions(c)
-        o = U(kwarg(c, "order", 0))
-        if ("order is None", True) in cs:
-            lp = enclosing(c, ast.For)
-            ok = o == U(lp.target) and U(lp.iter).replace(" ", "") == "range(max_order+1)"
+    for meth, state in (("isr_matrix_block", "intermediate_state"), ("precursor_matrix_block", "precursor")):
+        fn = ctx.model.fn(f"{SM}.{meth}")
+        n = 0
+        for order in (0, 1, 2, 3):
+            for block, indices in ((("ph", "ph"), ("ia", "jb")), (("ph", "pphh"), ("ia", "jkbc")), (("pphh", "ph"), ("ijab", "kc"))):
+                if order == 3 and block != ("ph", "ph"):
+                    continue
+                scen = dx.Scenario()
+                sx = dx.make_sx(ctx, meth, scen, max_paths=4096)
+                outs = sx.run(fn, lambda: dict(self=_self(scen), order=order, block=",".join(block),
+                                               indices=",".join(indices), subtract_gs=True))
+                what = f"{meth}({order}, {block})"
+                formula = _block_formula(state, order, block, indices, True)
+                rets = [o for o in outs if o.kind == "return"]
+                if not rets:
+                    raise AnalysisError(f"R03a: {what} has no returning path")
+                for o in rets:
+                    zeros = dx.zero_tests(o)
+                    want = dx.keys(sum((expand_products(p) for nf, hop, p in formula
+                                        if not any(z == nf or z == hop for z in zeros)), []))
+                    got = dx.keys(dx.skeleton(o.value))
+                    full = not zeros
+                    ok = dx.compare(ctx, rule, fn, what + ("" if full else f" with {len(zeros)} vanishing factor(s)"), got, want,
+                                    key=f"{meth} {order} {block[0]},{block[1]} {'full' if full else 'zero ' + str(sorted(map(show, zeros)))}")
+                    n += 1
+                    if full and ok:
+                        prods = dx.skeleton(o.value)
+                        dx.d1_orders(ctx, "D1", fn, what, prods, order, key=f"{meth} orders {order} {block[0]},{block[1]}")
+                # the input guards
+                for bad_idx, why in (("ia,ib", "repeated index in bra and ket"), ("ia", "a single index string")):
+                    o2 = sx.run(fn, lambda: dict(self=_self(scen), order=order, block=",".join(block), indices=bad_idx,
+                                                 subtract_gs=True))
+                    ctx.check(rule, fn, all(o.kind == "raise" for o in o2), f"{what}: {why} refused",
+                              f"{what}: {why} ({bad_idx}) is accepted", key=f"{meth} guard {why}")
+                    break
+        ctx.floor(rule, f"evaluated paths of {meth}", n, 10)
+        # shift flag forwarded
+        scen = dx.Scenario()
+        sx = dx.make_sx(ctx, meth, scen, max_paths=4096)
+        outs = sx.run(fn, lambda: dict(self=_self(scen), order=1, block="ph,ph", indices="ia,jb", subtract_gs=sym("SG")))
+        flags = {args_of(c).get("subtract_gs") for o in outs for c in subterms(o.value) if c.op == "mcall" and c.args[1] == "hamiltonian"}
+        ctx.check(rule, fn, flags == {sym("SG")}, f"{meth}: shift flag forwarded to the Hamiltonian",
+                  f"{meth}: hamiltonian is called with subtract_gs in {sorted(map(show, flags))}", key=f"{meth} shift flag")
+
+
+def r03a_mvp(ctx):
+    rule = "R03a"
+    fn = ctx.model.fn(SM + ".mvp_block_order")
+    for order, space, block, idx in ((0, "ph", ("ph", "ph"), "ia"), (1, "ph", ("ph", "pphh"), "ia"), (1, "pphh", ("pphh", "ph"), "ijab"),
+                                     (0, "pphh", ("pphh", "pphh"), "ijab"), (2, "h", ("h", "phh"), "i")):
+        scen = dx.Scenario()
+        sx = dx.make_sx(ctx, "mvp_block_order", scen)
+        outs = sx.run(fn, lambda: dict(self=_self(scen), order=order, space=space, block=",".join(block), indices=idx,
+                                       subtract_gs=sym("SG")))
+        what = f"mvp_block_order({order}, {space}, {block})"
+        if len(outs) != 1 or outs[0].kind != "return":
+            ctx.bad(rule, fn, f"{what}: {outs}", key=f"mvp shape {block}")
+            continue
+        v = outs[0].value
+        ctx.check(rule, fn, isinstance(v, T) and v.op == "call" and v.args[0] == "evaluate_deltas",
+                  f"{what}: Kronecker deltas of the contraction evaluated", f"{what}: result is not passed through evaluate_deltas: {show(v)[:200]}",
+                  key=f"mvp deltas {block}")
+        gen = [k for k, sp in scen.generated.items() if sp == block[1]]
+        ctx.check("D3", fn, len(scen.generated) == 1 and len(gen) == 1, f"{what}: summed indices generated for the ket space {block[1]}",
+                  f"{what}: summed indices are generated for the spaces {sorted(scen.generated.values())}, expected [{block[1]}]",
+                  key=f"mvp generated {block}")
+        if not gen:
+            continue
+        g = gen[0]
+        M = mcall(sym("self"), "isr_matrix_block", order=order, block=block, indices=(idx, g), subtract_gs=sym("SG"))
+        Y = mcall(sym("isr"), "amplitude_vector", indices=g, lr="right")
+        from ..terms import t_pow
+        from fractions import Fraction
+        p = t_mul(t_pow(1 / dx.lift(space), Fraction(-1, 2)), t_pow(1 / dx.lift(block[1]), Fraction(-1, 2)))
+        want = dx.keys(expand_products(t_mul(p, M, Y)))
+        got = dx.keys(dx.skeleton(v))
+        if got != want:
+            # attribute the difference: prefactor only -> D3
+            strip_c = lambda ks: multiset(k.split(" | ", 1)[1] for k in ks for _ in range(ks[k]))
+            r = "D3" if strip_c(got) == strip_c(want) else rule
+            dx.compare(ctx, r, fn, what, got, want, key=f"mvp formula {block}")
         else:
-            ok = o == "order"
-        ok = ok and U(kwarg(c, "space", 1)) == "space" and U(kwarg(c, "block", 2)) == "block" \
-            and U(kwarg(c, "indices", 3)) == "indices" and U(kwarg(c, "subtract_gs", 4)) == "subtract_gs"
-        ctx.check(rule, c, ok, "block contribution requested with forwarded arguments", f"`{U(c)[:90]}`", key=f"mvp call {o}")
-        st = c._parent
-        ctx.check(rule, c, isinstance(st, ast.AugAssign) and isinstance(st.op, ast.Add), "contribution added",
-                  "block contribution is not added", key=f"mvp add {o}")
-    # matrix blocks: accumulation
-    for meth, state in (("precursor_matrix_block", "precursor"), ("isr_matrix_block", "intermediate_state")):
-        f = ctx.model.fn(SM + meth)
-        adds = [n for n in walk_fn(f) if isinstance(n, ast.AugAssign) and U(n.target) == "res"]
-        ctx.check(rule, f, len(adds) == 1 and isinstance(adds[0].op, ast.Add) and U(adds[0].value) == "(norm * matrix).expand()",
-                  f"{meth}: norm * matrix added", f"{meth}: accumulation changed", key=f"{meth} add")
-        inner = [n for n in walk_fn(f) if isinstance(n, ast.AugAssign) and U(n.target) == "matrix"]
-        ctx.check(rule, f, len(inner) == 1 and isinstance(inner[0].op, ast.Add) and U(inner[0].value) == "itmd",
-                  f"{meth}: each order split added once", f"{meth}: inner accumulation changed", key=f"{meth} inner")
-        for c in calls_in(f):
-            if call_name(c) == state:
-                bk = kwarg(c, "braket", 2).value
-                ok = U(kwarg(c, "space", 1)) == f"{bk}_space" and U(kwarg(c, "indices", 3)) == f"{bk}_idx"
-                ctx.check(rule, c, ok, f"{meth}: {bk} state from the {bk} space/indices", f"`{U(c)[:90]}`", key=f"{meth} {bk} args")
-        un = [n for n in walk_fn(f) if isinstance(n, ast.Assign) and U(n.targets[0]) in ("(bra_space, ket_space)", "(bra_idx, ket_idx)")]
-        got = {U(n.targets[0]): U(n.value) for n in un}
-        ctx.check(rule, f, got == {"(bra_space, ket_space)": "block", "(bra_idx, ket_idx)": "indices"},
-                  f"{meth}: bra/ket from block and indices in order", f"{meth}: unpacking is {got}", key=f"{meth} unpack")
-        h = [c for c in calls_in(f) if call_name(c) == "hamiltonian"]
-        ok = len(h) == 1 and U(h[0].args[1] if len(h[0].args) > 1 else kwarg(h[0], "subtract_gs")) == "subtract_gs"
-        ctx.check(rule, f, ok, f"{meth}: shift flag forwarded", f"{meth}: subtract_gs not forwarded", key=f"{meth} shift flag")
+            ctx.ok(rule, fn, f"{what} = p({space}) p({block[1]}) M Y with p = 1/sqrt(n_o! n_v!)", key=f"mvp formula {block}")
+            ctx.ok("D3", fn, f"{what}: both square-root factors", key=f"mvp prefactors {block}")
+    # foreign bra space
+    scen = dx.Scenario()
+    sx = dx.make_sx(ctx, "mvp_block_order", scen)
+    outs = sx.run(fn, lambda: dict(self=_self(scen), order=0, space="pphh", block="ph,pphh", indices="ijab", subtract_gs=True))
+    ctx.check(rule, fn, all(o.kind == "raise" for o in outs), "result space different from the bra space refused",
+              "mvp_block_order accepts a result space that is not the bra space of the block", key="mvp space guard")
+
+
+def _table(scen, n):
+    """ADC(n) truncation table order(mu, nu) = n - (mu - 1) - (nu - 1) for the variant of the scenario."""
+    ms = {"pp": "ph", "ip": "h", "ea": "p", "dip": "hh", "dea": "pp"}[scen.variant]
+    spaces = ["p" * i + ms + "h" * i for i in range(0, n // 2 + 1)]
+    return {(a, b): n - i - j for i, a in enumerate(spaces) for j, b in enumerate(spaces)}
+
+
+def r03a_sums(ctx):
+    rule = "R03a"
+    extra = {f"{SM}.block_order", f"{SM}.max_ptorder_spaces"}
+    for meth, inner in (("mvp", "mvp_block_order"), ("expectation_value", "expectation_value_block_order")):
+        fn = ctx.model.fn(f"{SM}.{meth}")
+        for variant, space, idx in (("pp", "ph", "ia"), ("pp", "pphh", "ijab"), ("ip", "h", "i")):
+            for n in (0, 1, 2, 3):
+                for order in (None, 0, 1, n):
+                    scen = dx.Scenario(variant=variant)
+                    sx = dx.make_sx(ctx, meth, scen, extra_inline=extra)
+                    table = _table(scen, n)
+                    if meth == "mvp":
+                        if space not in {b for b, _ in table}:
+                            continue
+                        args = lambda: dict(self=_self(scen), adc_order=n, space=space, indices=idx, order=order, subtract_gs=sym("SG"))
+                    else:
+                        if (space, idx) != ("ph", "ia") and variant == "pp":
+                            continue
+                        args = lambda: dict(self=_self(scen), adc_order=n, order=order, subtract_gs=sym("SG"))
+                    outs = sx.run(fn, args)
+                    what = f"{variant}-ADC({n}) {meth}({space if meth == 'mvp' else ''}{', order=%s' % order if order is not None else ''})"
+                    if len(outs) != 1 or outs[0].kind != "return":
+                        ctx.bad(rule, fn, f"{what}: {outs}", key=f"{meth} shape {variant} {n} {space} {order}")
+                        continue
+                    want = []
+                    for blk, mo in table.items():
+                        if meth == "mvp" and blk[0] != space:
+                            continue
+                        for o in (range(mo + 1) if order is None else [order] if order <= mo else []):
+                            if meth == "mvp":
+                                want.append(mcall(sym("self"), inner, order=o, space=space, block=blk, indices=idx, subtract_gs=sym("SG")))
+                            else:
+                                want.append(mcall(sym("self"), inner, order=o, block=blk, subtract_gs=sym("SG")))
+                    dx.compare(ctx, rule, fn, what, dx.keys(dx.skeleton(outs[0].value)), dx.keys(expand_products(t_add(*want)) if want else []),
+                               key=f"{meth} {variant} {n} {space if meth == 'mvp' else ''} {order}")
+    # expectation value of one block: left vector on indices generated for the bra space
+    fn = ctx.model.fn(f"{SM}.expectation_value_block_order")
+    for order, block in ((0, ("ph", "ph")), (1, ("ph", "pphh")), (1, ("pphh", "ph"))):
+        scen = dx.Scenario()
+        sx = dx.make_sx(ctx, "expectation_value_block_order", scen)
+        outs = sx.run(fn, lambda: dict(self=_self(scen), order=order, block=",".join(block), subtract_gs=sym("SG")))
+        what = f"expectation_value_block_order({order}, {block})"
+        if len(outs) != 1 or outs[0].kind != "return":
+            ctx.bad(rule, fn, f"{what}: {outs}", key=f"expec shape {block}")
+            continue
+        gen = [k for k, sp in scen.generated.items() if sp == block[0]]
+        ctx.check(rule, fn, len(scen.generated) == 1 and len(gen) == 1, f"{what}: summed indices generated for the bra space {block[0]}",
+                  f"{what}: indices generated for {sorted(scen.generated.values())}", key=f"expec generated {block}")
+        if not gen:
+            continue
+        g = gen[0]
+        want = t_mul(mcall(sym("isr"), "amplitude_vector", indices=g, lr="left"),
+                     mcall(sym("self"), "mvp_block_order", order=order, space=block[0], block=block, indices=g, subtract_gs=sym("SG")))
+        dx.compare(ctx, rule, fn, what, dx.keys(dx.skeleton(outs[0].value)), dx.keys(expand_products(want)), key=f"expec formula {block}")
 
 
 def r03b(ctx):
     rule = "R03b"
-    mp = ctx.model.fn(SM + "max_ptorder_spaces")
-    bo = ctx.model.fn(SM + "block_order")
-    mins = {"pp": "ph", "ip": "h", "ea": "p", "dip": "hh", "dea": "pp"}
-    import itertools
-
-    def product(i, node, a, kw):
-        return list(itertools.product(*a))
-    for var, ms in mins.items():
+    mp = ctx.model.fn(SM + ".max_ptorder_spaces")
+    bo = ctx.model.fn(SM + ".block_order")
+    for var in ("pp", "ip", "ea", "dip", "dea"):
         for n in range(0, 7):
-            isr = Rec("isr", min_space=[ms])
-            me = Rec("self", isr=isr)
-            kind, val = Interp({}, what="max_ptorder_spaces").call(mp, {"self": me, "order": n})
-            want = {"p" * i + ms + "h" * i: n - i for i in range(0, n // 2 + 1)}
-            ctx.check(rule, mp, kind == "return" and val == want, f"{var}-ADC({n}): classes {want}",
+            scen = dx.Scenario(variant=var)
+            sx = dx.make_sx(ctx, "block_order", scen, extra_inline={f"{SM}.max_ptorder_spaces"})
+            table = _table(scen, n)
+            want = {}
+            for (a, b), o in table.items():
+                want[a] = max(want.get(a, -99), o) if a == b else want.get(a, -99)
+            want = {a: table[(a, a)] + 0 for a in {x for x, _ in table}}
+            # max order of a class mu is n - (mu - 1)
+            ms = min(want, key=len)
+            want = {a: n - (len(a) - len(ms)) // 2 for a in want}
+            outs = sx.run(mp, lambda: dict(self=_self(scen), order=n))
+            val = outs[0].value if len(outs) == 1 and outs[0].kind == "return" else None
+            ctx.check(rule, mp, val == want, f"{var}-ADC({n}): classes {want}",
                       f"{var}-ADC({n}): max_ptorder_spaces gives {val}, expected {want}", key=f"spaces {var} {n}")
+            outs = sx.run(bo, lambda: dict(self=_self(scen), order=n))
+            val = outs[0].value if len(outs) == 1 and outs[0].kind == "return" else None
+            ctx.check(rule, bo, val == table, f"{var}-ADC({n}): block orders n-(mu-1)-(nu-1)",
+                      f"{var}-ADC({n}): block_order gives {val}, expected {table}", key=f"blocks {var} {n}")
 
-            def mps(i, node, a, kw, me=me):
-                k, v = Interp({}, what="max_ptorder_spaces").call(mp, {"self": me, "order": a[0]})
-                return v
-            me2 = Rec("self", isr=isr, max_ptorder_spaces=mps)
-            kind, val = Interp({"product": product}, what="block_order").call(bo, {"self": me2, "order": n})
-            cls = {s: i for i, s in enumerate(want)}
-            wantb = {(a, b): n - cls[a] - cls[b] for a in want for b in want}
-            ctx.check(rule, bo, kind == "return" and val == wantb, f"{var}-ADC({n}): block orders n-(mu-1)-(nu-1)",
-                      f"{var}-ADC({n}): block_order gives {val}, expected {wantb}", key=f"blocks {var} {n}")
+
+def d2(ctx):
+    """<bra| op |ket> inside every wicks of the matrix blocks (read off the evaluated skeleton)."""
+    rule = "D2"
+    for meth, state in (("isr_matrix_block", "intermediate_state"), ("precursor_matrix_block", "precursor")):
+        fn = ctx.model.fn(f"{SM}.{meth}")
+        scen = dx.Scenario()
+        sx = dx.make_sx(ctx, meth, scen, max_paths=4096)
+        outs = sx.run(fn, lambda: dict(self=_self(scen), order=2, block="ph,pphh", indices="ia,jkbc", subtract_gs=True))
+        n = 0
+        for o in outs:
+            if o.kind != "return":
+                continue
+            for w in subterms(o.value):
+                if not (w.op == "call" and w.args[0] == "wicks"):
+                    continue
+                n += 1
+                a = args_of(w)
+                fs = [f for f in (a["expr"].args if isinstance(a["expr"], T) and a["expr"].op == "mul" else [a["expr"]]) if not is_num(f)]
+                kinds = []
+                for f in fs:
+                    if isinstance(f, T) and f.op == "mcall" and f.args[1] == state:
+                        fa = args_of(f)
+                        kinds.append((fa["braket"], fa["space"], fa["indices"]))
+                    else:
+                        kinds.append(("op", f))
+                shape = [k[0] for k in kinds]
+                # H - E: the energy shift is a scalar next to the operator
+                core = [k for k in kinds if k[0] != "op" or not dx.is_scalar(k[1])]
+                ok = [k[0] for k in core] == ["bra", "op", "ket"] and core[0][1:] == ("ph", "ia") and core[2][1:] == ("pphh", "jkbc")
+                if [k[0] for k in core] == ["bra", "ket"]:
+                    ok = core[0][1:] == ("ph", "ia") and core[1][1:] == ("pphh", "jkbc")  # pure energy-shift term
+                ctx.check(rule, fn, ok, f"{meth}: wicks(<bra ph,ia| op |ket pphh,jkbc>)",
+                          f"{meth}: operator string inside wicks is ordered {shape} with states {[k[1:] for k in kinds if k[0] != 'op']}: "
+                          f"{show(a['expr'])[:300]}", key=f"{meth} sandwich {product_key(1, fs)[:200]}")
+                op = [k[1] for k in kinds if k[0] == "op" and not dx.is_scalar(k[1])]
+                if op:
+                    src = op[0].args[0] if op[0].op == "item" else None
+                    okr = a.get("rules") == (T("item", src, 1) if src is not None else None)
+                    ctx.check(rule, fn, okr, f"{meth}: rules of the operator passed to wicks",
+                              f"{meth}: wicks gets rules {show(a.get('rules'))} for the operator {show(op[0])}",
+                              key=f"{meth} rules {product_key(1, fs)[:200]}")
+                ctx.check(rule, fn, a.get("simplify_kronecker_deltas") is True, f"{meth}: deltas evaluated in wicks",
+                          f"{meth}: wicks called with simplify_kronecker_deltas={a.get('simplify_kronecker_deltas')}",
+                          key=f"{meth} deltas {product_key(1, fs)[:200]}")
+        ctx.floor(rule, f"wicks calls in the skeleton of {meth}", n, 6)
 
 
 def run(ctx):
-    if ctx.want("D1"):
-        deriv.d1(ctx, "D1", "secular_matrix", 4)
-        deriv.d1(ctx, "D1", "intermediate_states", 9)
-    if ctx.want("D2"):
-        deriv.d2(ctx, "D2", "secular_matrix", 2)
-        deriv.d2(ctx, "D2", "intermediate_states", 6)
-    if ctx.want("D3"):
-        d3(ctx)
+    from . import c04, c02
     if ctx.want("D5"):
-        deriv.d5_hamiltonian(ctx, "D5")
+        d5(ctx)
+    if ctx.want("R03a") or ctx.want("D1"):
+        r03a_blocks(ctx)
+    if ctx.want("R03a") or ctx.want("D3"):
+        r03a_mvp(ctx)
     if ctx.want("R03a"):
-        r03a(ctx)
+        r03a_sums(ctx)
+    if ctx.want("D2"):
+        d2(ctx)
     if ctx.want("R03b"):
         r03b(ctx)
-    if ctx.want("R04c"):
-        c04.r04c(ctx)
-    # S^(-1/2) and the norm factor enter every matrix block
-    if ctx.want("R04a"):
-        c04.r04a(ctx)
-    if ctx.want("R04b"):
-        c04.r04b(ctx)
-    if ctx.want("R02c"):
-        from . import c02
-        c02.r02c(ctx)
-        c02.taylor_builder(ctx, "R02c", c04.IS + "expand_S_taylor", "-0.5")
-    # ground-state layer (wavefunctions, norm factors) every expression is built from
-    from . import c02
-    if ctx.want("D1"):
-        deriv.d1(ctx, "D1", "groundstate", 6)
-    if ctx.want("D2"):
-        deriv.d2(ctx, "D2", "groundstate", 6)
-    if ctx.want("D3"):
-        c02.d3_psi(ctx)
-        c02.d3_operator(ctx)
-    if ctx.want("R02a"):
-        c02.r02a(ctx)
+    if hasattr(c04, 'lower_layers'):
+        c04.lower_layers(ctx)
